@@ -251,9 +251,34 @@ decreasing_by
 def urlEscapeRaw (v : Bytes) : Bytes :=
   if urlCopies v.length v then urlEscapeLoop v.length v else v
 
+def isRefBodyByte (x : UInt8) : Bool := isAlnum x || x == 35
+
+/-- util.unescapeAndResolve (since 65e7267): ONE pass over a link destination. `\` + punctuation gives the
+    punctuation; `&` followed by alphanumerics/`#` and `;` is handed, as that one candidate, to
+    ResolveNumericReferences and, if that leaves it alone, to ResolveEntityNames; whatever a step produces is
+    final (never interpreted again). -/
+def unescapeAndResolve : Bytes → Bytes
+  | [] => []
+  | [c] => [c]
+  | c :: d :: rest0 =>
+    if c == 92 && isPunct d then d :: unescapeAndResolve rest0
+    else if c == 38 then
+      match h : (d :: rest0).dropWhile isRefBodyByte with
+      | 59 :: rest =>
+        let ref := c :: ((d :: rest0).takeWhile isRefBodyByte ++ [59])
+        let r := if resolveNumeric ref != ref then resolveNumeric ref else resolveEntities ref
+        if r != ref then r ++ unescapeAndResolve rest else c :: unescapeAndResolve (d :: rest0)
+      | _ => c :: unescapeAndResolve (d :: rest0)
+    else c :: unescapeAndResolve (d :: rest0)
+termination_by l => l.length
+decreasing_by
+  all_goals simp_wf
+  all_goals (try omega)
+  all_goals (have hl := length_dropWhile_le isRefBodyByte (d :: rest0); rw [h] at hl; simp at hl; omega)
+
 /-- util.URLEscape -/
 def urlEscape (v : Bytes) (resolveReference : Bool) : Bytes :=
-  urlEscapeRaw (if resolveReference then resolveEntities (resolveNumeric (unescapePunct v)) else v)
+  urlEscapeRaw (if resolveReference then unescapeAndResolve v else v)
 
 /-! ### link-label normalisation -/
 
